@@ -113,7 +113,11 @@ def case_strategy(draw):
     else:
         payload = draw(st.sampled_from(PAYLOADS))
     trig = draw(st.sampled_from(["", "dictionary of ", "list of ", "whether ", "number ", "one of ", "string or ", "Optional "]))
-    return {"payload": payload, "pos": pos, "trigger": trig, "style": draw(st.sampled_from(["rest", "google", "numpydoc"])), "api": draw(st.sampled_from(sorted(APIS)))}
+    if pos in ("doc-default", "default") and draw(st.booleans()):
+        # the payload as an operand: the characters `* ^ & | $ @ !` route a prose default through the "this is code,
+        # not a literal" branch of the default extraction
+        payload = draw(st.sampled_from(["{p} * 1", "1 | {p}", "{p} ^ 1", "1 & {p}", "1 @ {p}", "60 * 60 * {p}", "not {p} != 1", "{p} ** 2"])).replace("{p}", payload)
+    return {"payload": payload, "pos": pos, "trigger": trig, "doctyp": draw(st.sampled_from(["int", "int", "float", "bool", "complex", "str", "Optional[int]"])), "style": draw(st.sampled_from(["rest", "google", "numpydoc"])), "api": draw(st.sampled_from(sorted(APIS)))}
 
 
 def strategy(ctx):
@@ -133,7 +137,7 @@ def doc_lines(case, names, kind="param"):
         desc = "%s%s. More text" % (trig, p)
     if pos == "doc-default":
         desc = "the value. Defaults to %s" % p
-    typ = "int"
+    typ = case.get("doctyp", "int")
     if pos == "doc-type":
         typ = p
     L = ["Summary line.", ""]
